@@ -279,6 +279,14 @@ func runOnOpt(schema z.ZogSchema, c *Case, rec *Recorder, data any, hook bool) (
 		} else {
 			im = ltm(s.Validate(dest.Interface().(*string), opts...))
 		}
+	case *z.PreprocessSchema[string, int]:
+		im = ltm(s.Parse(data.(string), dest.Interface().(*int), opts...))
+	case *z.PreprocessSchema[string, string]:
+		im = ltm(s.Parse(data.(string), dest.Interface().(*string), opts...))
+	case *z.PreprocessSchema[*int, int]:
+		im = ltm(s.Validate(dest.Interface().(*int), opts...))
+	case *z.PreprocessSchema[*string, string]:
+		im = ltm(s.Validate(dest.Interface().(*string), opts...))
 	default:
 		panic(fmt.Sprintf("Run: unsupported top-level schema %T", schema))
 	}
@@ -374,6 +382,12 @@ func noteInputDisplays(v V, ext *Ext) {
 		}
 	case "s":
 		ext.NoteParse(v.S)
+		if strings.Contains(v.S, ",") {
+			// the named slice coercer `csv` hands the pieces to the element schema
+			for _, piece := range strings.Split(v.S, ",") {
+				ext.NoteParse(piece)
+			}
+		}
 	}
 }
 
